@@ -268,7 +268,11 @@ impl Dictionary {
         }
         self.data.connector.map_connection_ids(&mapper);
         self.data.unk_handler.map_connection_ids(&mapper);
-        self.data.mapper = Some(mapper);
+        // The stored mapper translates original ids, so successive mappings are composed.
+        self.data.mapper = Some(match self.data.mapper.take() {
+            Some(prev) => prev.then(&mapper),
+            None => mapper,
+        });
         Ok(self)
     }
 }
